@@ -47,9 +47,11 @@ SeqBits(id) == id
 Bit(id, i)  == Bits(id)[i]
 RECURSIVE NumToBits(_, _)
 NumToBits(n, w) == IF w = 0 THEN <<>> ELSE Append(NumToBits(n \div 2, w - 1), n % 2)
-AllIDs == {NumToBits(n, W) : n \in 0..(2^W - 1)}      \* targets of queries, generated ids
-IDs    == {NumToBits(n, W) : n \in IdNums}             \* nodes that may be added
-AllPrefixes == UNION {{NumToBits(n, w) : n \in 0..(2^w - 1)} : w \in 0..W}
+(* (enumerated when model checking only; TLC evaluates constant definitions eagerly, hence the guard) *)
+Small       == W <= 8
+AllIDs      == IF Small THEN {NumToBits(n, W) : n \in 0..(2^W - 1)} ELSE {}    \* targets of queries, generated ids
+IDs         == {NumToBits(n, W) : n \in IdNums}                               \* nodes that may be added
+AllPrefixes == IF Small THEN UNION {{NumToBits(n, w) : n \in 0..(2^w - 1)} : w \in 0..W} ELSE {}
 
 Range(s) == {s[i] : i \in DOMAIN s}
 Min(a, b) == IF a <= b THEN a ELSE b
